@@ -57,6 +57,19 @@ Theorem C27_prop_of_model_module :
 Proof. exact prop_of_model_module. Qed.
 Print Assumptions C27_prop_of_model_module.
 
+(* The same for backend replies (src 1): what sendResponse sees is backend_view of the reply (Connection: close
+   removed by the transport, Content-Length re-added from the framing, no body for HEAD / 1xx / 204 / 304); the
+   property is stated against the header and body the BACKEND supplied. *)
+Theorem C27_prop_of_model_backend :
+  forall i c, dec_C27 i = Some c -> i_src c = 1 ->
+  (q_minor (i_q c) = 0 \/ q_minor (i_q c) = 1) -> 100 <= i_status c <= 599 ->
+  wf_hdrs (i_hdrs c) = true -> get_all s_cl (i_hdrs c) = [] -> digits18 (dec_of_Z (i_declared c)) = true ->
+  0 <= i_declared c < 10 ^ 80 ->
+  blen (supplied_body c) < 2 ^ 62 -> irregular c = false ->
+  prop_C27 i (run_C27 i) = true.
+Proof. exact prop_of_model_backend. Qed.
+Print Assumptions C27_prop_of_model_backend.
+
 (* C27_head_and_bodyless_empty: a response that cannot carry a body (HEAD request, or status 1xx / 204 / 304)
    is never switched to chunked encoding by writeHeader, whatever the supplier's header and body are. *)
 Theorem C27_head_and_bodyless_never_chunked :
